@@ -398,7 +398,7 @@ func (g *gen) symbol() slip.Object {
 
 var safeSymbols = []string{"foo", "bar", "a", "x1", "car", "Foo", "FOO", "fooBar", "a-b", "*x*", "+", "-", "1+", "a.b", "...", "<=", "a:b", "$v", "%", "=", "~a", "^", "_",
 	"tt", "nile", ":key", ":Key", ":", ":1", "quote", "lambda", "u", "defun", "&rest", "a@b", "x/y"}
-var safePipeSymbols = []string{"a b", "a(b", "(", ")", "'", "a'b", "\"", ";", "a;b", "#", "a#", ",", "`", "a&b", "[", "]", "{", "}", "!", "a!", "A B", "Hello World", "x y z", "", "123", "-5", "1.", "1e5", "1d0", "1/2", "2s3", "a|b", "|", "a\\b", "\\", "a\x01b", "a\tb", "x|y z", ":a b", ":(", ":a|b", "a?", "?", ".", "nil", "NIL", "Nil"}
+var safePipeSymbols = []string{"a b", "a(b", "(", ")", "'", "a'b", "\"", ";", "a;b", "#", "a#", ",", "`", "a&b", "[", "]", "{", "}", "!", "a!", "A B", "Hello World", "x y z", "", "123", "-5", "1.", "1e5", "1d0", "1/2", "2s3", "a|b", "|", "a\\b", "\\", "a\x01b", "a\tb", "x|y z", ":a b", ":(", ":a|b", "a?", "?", ".", "nil", "NIL", "Nil", "@2024-01-02", "@x"}
 
 func (g *gen) safeAtom() slip.Object {
 	r := g.rng()
@@ -922,6 +922,13 @@ func repairedCases() (out []repairedCase) {
 		slip.List{nil, slip.Tail{Value: slip.Symbol("Nil")}}, slip.NewVector(2, slip.TrueSymbol, nil, slip.List{slip.Symbol("nil"), nil}, false)} {
 		for _, c := range []cfg{flat, pretty, with(pretty, func(c *cfg) { c.pcase = "up"; c.margin = 2 }), with(flat, func(c *cfg) { c.pcase = "cap" }), with(flat, func(c *cfg) { c.pcase = "none" })} {
 			out = append(out, repairedCase{"C03-10", c, o})
+		}
+	}
+	// C03-11: names that begin with @ (a time for the reader when bare)
+	for _, name := range []string{"@2024-01-02", "@2024-01-02T10:11:12", "@2024-01-02T10:11:12Z", "@2024-01-02T10:11:12.5+01:00", "@x", "@", "@@", "a@b", "x@", "@ a"} {
+		for _, c := range []cfg{flat, pretty, with(pretty, func(c *cfg) { c.pcase = "up"; c.margin = 2 })} {
+			out = append(out, repairedCase{"C03-11", c, slip.Symbol(name)})
+			out = append(out, repairedCase{"C03-11", c, slip.List{slip.Symbol("x"), slip.Symbol(name), slip.Tail{Value: slip.Symbol(name)}}})
 		}
 	}
 	return
